@@ -107,10 +107,11 @@ def run(ctx):
     if mods:
         import extract
         ctx.gen_tables = extract.all_tables()      # C01Suites is proved over the table regenerated from the source
-        import c01_pipeline_thms
+        import c01_pipeline_thms, export_thms     # export_thms: C01 from capture-file bytes to output-file bytes
         ctx.prove(list(dict.fromkeys(mods + ["TLX.Props.C01Suites"] + list(getattr(rl, "PROVE_MODULES", []))
-                                     + c01_pipeline_thms.MODULES)))
-        ctx.require_theorems(list(getattr(rl, "THEOREMS", THEOREMS)) + c01_pipeline_thms.THEOREMS + [
+                                     + c01_pipeline_thms.MODULES + export_thms.MODULES)))
+        ctx.require_theorems(list(getattr(rl, "THEOREMS", THEOREMS)) + c01_pipeline_thms.THEOREMS
+                             + export_thms.THEOREMS + [
             "TLX.Props.C01Suites.table_covered", "TLX.Props.C01Suites.every_table_suite_has_proved_class",
             "TLX.Props.C01Suites.table_suite_cipher_type_known"])
         rl.run_reclayer(ctx)
